@@ -77,6 +77,7 @@ def run(ctx, F):
     push_item_tables(ctx, F)
     sink_rule(ctx, F)
     arm_effects(ctx, F)
+    function_interpreter_arms(ctx, F)
     ctx.explanation = ("F2 error flow over every MIR body of the rsass library: each call returning Result<_, E> (E not a nom parser error) "
                        "is followed to its consumers; `?`/return/transfer propagate, ok()/unwrap_or*/is_err/if-let-without-error/dropped-unread absorb. "
                        "Absorbing sites must be in tables/errflow_reviewed.json (exact key) or known_findings.json. Plus: push_item decision tables drop only "
@@ -140,7 +141,16 @@ def sink_rule(ctx, F):
     for b in sorted(prog.bodies.values(), key=lambda b: b.def_):
         if not (b.def_.startswith("output::transform::") or b.def_.startswith("<output::cssd")):
             continue
-        err = cfgutil.error_exit_blocks(b)
+        err = set(cfgutil.error_exit_blocks(b))
+        # `return Err(x).at(pos)` / `.no_pos()`: a call that turns an Err aggregate into the function's result
+        S_ = None
+        for bi, t in b.calls():
+            if t["dest"][0] == 0 and not t["dest"][1]:
+                if S_ is None:
+                    from lib import sym as _sym
+                    S_ = _sym.Sym(prog, inline_depth=0)
+                if any("result::Result::Err" in repr(S_.operand(b, a)) for a in t["args"]):
+                    err.add(bi)
         for bi, t in b.calls():
             if (mir.callee_orig(t) or "") != "std::iter::Iterator::next" or t.get("target") is None:
                 continue
@@ -158,13 +168,51 @@ def sink_rule(ctx, F):
             is_loop = any(bi in b.successors(x) for x in body)
             if not is_loop:
                 continue
-            p = cfgutil.paths_to_return_avoiding(b, some, {bi})
+            p = cfgutil.paths_to_return_avoiding(b, some, {bi} | err)
             key = f"{b.def_}|loop#{n_loops}@{iter_descr(b, t)}"
             if p:
                 ctx.fail("F3-loop-completes", key, f"in {b.def_} the loop over {iter_descr(b, t)} can be left by a successful return from inside its body: the remaining elements are never evaluated and nothing is reported", where=b.where(p[-2] if len(p) > 1 else bi), path=[f"bb{x}" for x in p[:12]])
             else:
                 ctx.ok("F3-loop-completes", key, None)
     ctx.floor("item loops in the statement evaluator", n_loops, 5)
+
+
+FUNCTION_SKIP_REVIEWED = {"None": "the empty item", "Comment": "comments have no effect in a function body"}
+
+
+def function_interpreter_arms(ctx, F):
+    """The second interpreter of `Item` (ScopeRef::eval_body, function bodies): an arm that produces no
+    value, no definition, no diagnostic and no error may only select the reviewed item kinds; in
+    particular the catch-all must be an error, otherwise every item kind it covers is dropped silently."""
+    tree = F.ast
+    f = tree.one_method("variablescope::ScopeRef", "eval_body")
+    ms = [n for n in A.walk(f["body"]) if n.get("e") == "match" and any("Item::" in A.showpat(a["pat"]) for a in n["arms"])]
+    if not ms:
+        ctx.anchor_lost("ScopeRef::eval_body item match", "no match over Item found")
+        return
+    m = ms[0]
+    n = 0
+    for arm in m["arms"]:
+        body = A.strip(arm["body"])
+        while body.get("e") == "block" and len(body["stmts"]) == 1 and body["stmts"][0].get("s") == "expr":
+            body = A.strip(body["stmts"][0]["x"])
+        silent = body.get("e") == "path" and body["p"].rsplit("::", 1)[-1] == "None"
+        pats = arm["pat"]["xs"] if arm["pat"].get("p") == "or" else [arm["pat"]]
+        for pt in pats:
+            n += 1
+            label = A.showpat(pt)
+            if not silent:
+                ctx.ok("F5-function-arm-effect", f"eval_body|{label.split('(')[0].split('{')[0].strip()}", None)
+                continue
+            kind = pt.get("v", "").rsplit("::", 1)[-1] if pt.get("p") in ("path", "tstruct", "struct") else None
+            if kind in FUNCTION_SKIP_REVIEWED:
+                ctx.reviewed("F5-function-arm-effect", f"eval_body|Item::{kind} has no effect", FUNCTION_SKIP_REVIEWED[kind])
+            else:
+                what = "the catch-all arm" if pt.get("p") in ("wild", "bind") else f"the arm `{label[:40]}`"
+                ctx.fail("F5-function-arm-effect", f"eval_body|{'catch-all' if pt.get('p') in ('wild', 'bind') else label[:40]} has no effect",
+                         f"{what} of ScopeRef::eval_body evaluates to `None` without any effect: every item kind it covers is silently dropped from function bodies "
+                         "(the interpreter of nested control-flow bodies is the only place these are seen)", where=f["path"])
+    ctx.floor("eval_body arms", n, 10)
 
 
 def iter_descr(b, t):
